@@ -19,7 +19,7 @@ def feats(layout='recursive', hash_='keccak_160_lsb', stone='stone5'):
 
 UNITS = {
     # name: dict(fragments, features, mem_kb (ulimit -v), threads, rlimit)
-    'core': dict(fragments=PRE + T('lemmas.rs', 'transcript.rs', 'pow.rs'),
+    'core': dict(fragments=PRE + T('lemmas.rs', 'transcript.rs', 'pow.rs', 'commitment.rs', 'fri.rs', 'air.rs', 'stark.rs'),
                  features=DEFAULT_FEATURES, threads=8),
 }
 
